@@ -11,6 +11,7 @@ COQ_PROP_OK = "prop_ok"
 RULE = ("seeded random trees built from the public classes: agents nested up to depth 4 (fan-out <= 3), environments from leaf / ModularEnvironment (also via from_dict) / "
         "EnvironmentWrapper, sensors and actuators from leaves / dictionaries / wrappers (wrapper objects or plain functions) up to depth 4, an action value shaped like the actuator tree; in 30% of the trees distinct components of one class compare equal and hash alike (value-like objects); "
         "the dictionary composites of the trees are user subclasses with callbacks and a state of their own (in the model: a pseudo-child visited last) and a data hook (counted on the harness side: once per observation / action). "
+        "every leaf reading is a new value and a second observation is taken at the end: the first one must still hold what it held (harness-side clause). "
         "all eight root events are issued. Non-trivial = depth >= 3 somewhere and at least one dictionary and one wrapper; distinct = canonical JSON.")
 TRUSTED = [
     "Coq 8.16.1 kernel incl. vm_compute",
@@ -116,7 +117,7 @@ def precheck(case, obs):
         return {"agree": False, "prop_ok": False}
     if any(-1 in e for e in obs["events"]):
         return {"agree": False, "prop_ok": False}
-    if composite_bypassed(obs):
+    if composite_bypassed(obs) or obs.get("first_observation_kept") is False:
         return {"agree": False, "prop_ok": False}
     return None
 
@@ -212,6 +213,8 @@ def _signature0(case, obs):
 def signature(case, obs):
     if "error" not in obs and "crash" not in obs and composite_bypassed(obs):
         return "composite-subclass-bypassed"
+    if obs.get("first_observation_kept") is False:
+        return "observation-rewritten-by-a-later-one"
     return _signature0(case, obs)
 
 
